@@ -626,3 +626,306 @@ Section ModelSpec.
     rewrite E. f_equal. apply model_spec; auto.
   Qed.
 End ModelSpec.
+
+(* ================================================================== the property theorems (equality) *)
+Lemma map_id_in {A} (f : A -> A) l : (forall x, In x l -> f x = x) -> map f l = l.
+Proof.
+  induction l; simpl; auto. intro H. rewrite H by (left; auto). f_equal.
+  apply IHl; intros; apply H; right; auto.
+Qed.
+
+Lemma flat_map_single_in {A} (f : A -> list A) l : (forall x, In x l -> f x = [x]) -> flat_map f l = l.
+Proof.
+  induction l; simpl; auto. intro H. rewrite H by (left; auto). simpl. f_equal.
+  apply IHl; intros; apply H; right; auto.
+Qed.
+
+Definition collect (G : attr -> option val) (l : list attr) : list (aid * val) :=
+  flat_map (fun a => match G a with Some v => [(a_name a, v)] | None => [] end) l.
+
+Lemma lookup_collect_none G l x : ~ In x (map a_name l) -> lookup x (collect G l) = None.
+Proof.
+  induction l as [|b t IH]; simpl; auto. intro N.
+  destruct (G b); simpl.
+  - destruct (Nat.eqb_spec x (a_name b)); [exfalso; apply N; auto|]. apply IH; tauto.
+  - apply IH; tauto.
+Qed.
+
+Lemma lookup_collect G l a :
+  NoDup (map a_name l) -> In a l -> lookup (a_name a) (collect G l) = G a.
+Proof.
+  induction l as [|b t IH]; simpl; [tauto|]. intros ND [E|I].
+  - subst b. inversion ND; subst. destruct (G a); simpl.
+    + rewrite Nat.eqb_refl. reflexivity.
+    + apply lookup_collect_none; auto.
+  - inversion ND; subst.
+    assert (NE : a_name a <> a_name b).
+    { intro E. apply H1. rewrite <- E. apply in_map; auto. }
+    destruct (G b); simpl.
+    + destruct (Nat.eqb_spec (a_name a) (a_name b)); [congruence|]. apply IH; auto.
+    + apply IH; auto.
+Qed.
+
+Section Theorems.
+  Variable ct : ctable.
+  Hypothesis CT : wf_ct ct.
+
+  Theorem py_eq_total n a b : size a + size b < n -> exists r, py_eq ct n a b = Ok r.
+  Proof. apply enough; auto. Qed.
+
+  Theorem py_eq_refl n a : wf_field a -> size a + size a < n -> py_eq ct n a a = Ok true.
+  Proof.
+    intros W S. unfold py_eq. rewrite val_eq_spec; auto. f_equal. apply spec_refl; auto.
+  Qed.
+
+  Theorem py_eq_sym n a b :
+    wf_field a -> wf_field b -> size a + size b < n -> py_eq ct n a b = py_eq ct n b a.
+  Proof.
+    intros Wa Wb S. unfold py_eq. rewrite !val_eq_spec; auto; try lia. f_equal. apply spec_sym.
+  Qed.
+
+  Theorem py_eq_trans n a b c :
+    wf_field a -> wf_field b -> wf_field c ->
+    size a + size b < n -> size b + size c < n -> size a + size c < n ->
+    py_eq ct n a b = Ok true -> py_eq ct n b c = Ok true -> py_eq ct n a c = Ok true.
+  Proof.
+    intros Wa Wb Wc S1 S2 S3. unfold py_eq. rewrite !val_eq_spec; auto.
+    intros H1 H2. inversion H1 as [E1]. inversion H2 as [E2]. f_equal.
+    rewrite E1. eapply spec_trans; eauto.
+  Qed.
+
+  Theorem ne_negates_eq n a b r : py_eq ct n a b = Ok r -> py_ne ct n a b = Ok (negb r).
+  Proof. unfold py_eq, py_ne, val_ne. intro H; rewrite H; reflexivity. Qed.
+
+  Theorem eq_meets_spec n a b :
+    wf_field a -> wf_field b -> size a + size b < n -> py_eq ct n a b = Ok (spec_eqb ct n a b).
+  Proof. intros; apply val_eq_spec; auto. Qed.
+
+  Lemma field_eq_iff n u v :
+    wf_field u -> wf_field v -> size u + size v < n ->
+    (field_eqb (spec_eqb ct n) u v = true <-> field_eq ct n u v).
+  Proof.
+    intros Wu Wv S.
+    assert (G : spec_eqb ct n u v = true <-> py_eq ct n u v = Ok true).
+    { unfold py_eq. rewrite val_eq_spec; auto. split; intro H; [rewrite H; auto | inversion H; auto]. }
+    destruct u; try exact G. destruct v; try exact G.
+    simpl. apply Z.eqb_eq.
+  Qed.
+
+  Theorem eq_iff_attrs n c1 d1 c2 d2 :
+    wf (VInst c1 d1) -> wf (VInst c2 d2) ->
+    size (VInst c1 d1) + size (VInst c2 d2) < S n ->
+    (py_eq ct (S n) (VInst c1 d1) (VInst c2 d2) = Ok true <->
+     same_class (VInst c1 d1) (VInst c2 d2) /\
+     forall a, In a (c_attrs (ct c1)) -> a_compare a = true ->
+               field_eq ct n (getattr ct c1 d1 (a_name a)) (getattr ct c2 d2 (a_name a))).
+  Proof.
+    intros W1 W2 S. unfold py_eq. rewrite val_eq_spec; auto; try (right; right; auto).
+    assert (FE : forall a, field_eqb (spec_eqb ct n) (getattr ct c1 d1 (a_name a)) (getattr ct c2 d2 (a_name a)) = true
+                           <-> field_eq ct n (getattr ct c1 d1 (a_name a)) (getattr ct c2 d2 (a_name a))).
+    { intro a. apply field_eq_iff; try (apply getattr_wf; auto).
+      assert (A := getattr_size ct CT c1 d1 (a_name a)).
+      assert (B := getattr_size ct CT c2 d2 (a_name a)). lia. }
+    simpl spec_eqb. simpl same_class. split.
+    - intro H. injection H as H'. apply andb_true_iff in H' as [E F].
+      apply Nat.eqb_eq in E. split; auto. intros a I C.
+      rewrite forallb_forall in F. specialize (F a I). rewrite C in F. simpl in F.
+      apply FE; auto.
+    - intros [E F]. f_equal. apply andb_true_iff. split; [apply Nat.eqb_eq; auto|].
+      apply forallb_forall. intros a I. destruct (a_compare a) eqn:C; simpl; auto.
+      apply FE; auto.
+  Qed.
+
+  Theorem missing_only_missing n v :
+    py_eq ct (S n) VMissing v = Ok true <-> v = VMissing.
+  Proof.
+    split.
+    - destruct v; simpl; try discriminate; auto.
+    - intro; subst; reflexivity.
+  Qed.
+
+  (* instances of different classes (also of a class and its subclass) are never equal *)
+  Theorem eq_same_class n c1 d1 c2 d2 :
+    py_eq ct n (VInst c1 d1) (VInst c2 d2) = Ok true -> c1 = c2.
+  Proof.
+    destruct n; [discriminate|]. simpl.
+    destruct (Nat.eqb_spec c1 c2); auto. simpl.
+    destruct (is_sub ct c2 c1) eqn:SUB; unfold inst_eq_with; simpl.
+    - rewrite is_sub_antisym; auto. discriminate.
+    - rewrite SUB. discriminate.
+  Qed.
+
+  (* ---------------------------------------------------------------- deepcopy *)
+  Lemma dc_id k : forall v, size v < k -> deepcopy ct v = v.
+  Proof.
+    unfold deepcopy. induction k as [|k IH]; intros v S; [lia|].
+    destruct v; simpl; auto.
+    - f_equal. apply map_id_in. intros x I. apply IH. apply size_in_tuple in I. lia.
+    - f_equal. apply map_id_in. intros x I. apply IH. apply size_in_list in I. lia.
+    - f_equal. apply map_id_in. intros [k0 v] I. apply size_in_dict in I. simpl.
+      rewrite !IH by lia. reflexivity.
+    - destruct (c_frozen (ct c) || c_dnc (ct c)); auto. f_equal.
+      apply flat_map_single_in. intros [x v] I. simpl.
+      destruct (is_self_meth v); auto. destruct (attr_dnc ct c x); auto.
+      apply (size_in_inst c) in I. rewrite IH by lia. reflexivity.
+  Qed.
+
+  Theorem deepcopy_eq n x :
+    wf_field x -> size (deepcopy ct x) + size x < n -> py_eq ct n (deepcopy ct x) x = Ok true.
+  Proof.
+    intros W SZ. rewrite (dc_id (S (size x))) in * by lia. apply py_eq_refl; auto.
+  Qed.
+
+  (* ---------------------------------------------------------------- re-construction *)
+  Definition is_missing (v : val) : bool := match v with VMissing => true | _ => false end.
+
+  Definition G1 c d (a : attr) : option val :=
+    if a_init a then
+      if is_missing (getattr ct c d (a_name a)) then None
+      else Some (as_arg (getattr ct c d (a_name a)))
+    else None.
+
+  Definition G2 kw (a : attr) : option val :=
+    if a_init a then
+      match lookup (a_name a) kw with
+      | None => a_default a
+      | Some v => if is_missing v then a_default a
+                  else Some (if a_dnc a then v else deepcopy ct v)
+      end
+    else None.
+
+  Lemma own_kwargs_collect c d : own_kwargs ct c d = collect (G1 c d) (c_attrs (ct c)).
+  Proof.
+    unfold own_kwargs, collect. apply flat_map_ext. intro a. unfold G1.
+    destruct (a_init a); auto. destruct (getattr ct c d (a_name a)); reflexivity.
+  Qed.
+
+  Lemma construct_collect c kw : construct ct c kw = VInst c (collect (G2 kw) (c_attrs (ct c))).
+  Proof.
+    unfold construct, collect. f_equal. apply flat_map_ext. intro a. unfold G2.
+    destruct (a_init a); auto. destruct (lookup (a_name a) kw) as [v|]; auto.
+    destruct v; simpl; reflexivity.
+  Qed.
+
+  Lemma as_arg_wf v : wf_field v -> wf_field (as_arg v).
+  Proof. destruct v; simpl; auto. destruct self; auto. intros _. right; left; reflexivity. Qed.
+
+  Lemma field_refl n u : wf_field u -> size u + size u < n -> field_eqb (spec_eqb ct n) u u = true.
+  Proof.
+    intros W S. rewrite field_eqb_cases. destruct (is_meth u && is_meth u).
+    - apply Z.eqb_refl.
+    - apply spec_refl; auto.
+  Qed.
+
+  Lemma as_arg_size v : size (as_arg v) = size v.
+  Proof. destruct v; simpl; auto. destruct self; auto. Qed.
+
+  Lemma field_as_arg n u :
+    wf_field u -> size u + size u < n -> field_eqb (spec_eqb ct n) (as_arg u) u = true.
+  Proof.
+    intros W S. destruct u; try (apply field_refl; auto).
+    destruct self; simpl; apply Z.eqb_refl.
+  Qed.
+
+  (* attributes that the constructor does not set must not have been assigned on x;
+     an attribute that is missing on x must not have a default *)
+  Definition rebuildable (c : cid) (d : list (aid * val)) : Prop :=
+    forall a, In a (c_attrs (ct c)) -> a_compare a = true ->
+      (a_init a = false -> lookup (a_name a) d = None) /\
+      (a_init a = true -> getattr ct c d (a_name a) = VMissing -> a_default a = None).
+
+  Lemma stored_not_missing c d x : wf (VInst c d) -> lookup x d <> Some VMissing.
+  Proof.
+    intros W L. apply lookup_in in L. inversion W as [| | | | | | | | c0 d0 F]; subst.
+    rewrite Forall_forall in F. specialize (F _ L). simpl in F. destruct F as [F|F]; [discriminate|inversion F].
+  Qed.
+
+  Lemma rebuild_fields n c d :
+    wf (VInst c d) -> rebuildable c d -> size (VInst c d) + size (VInst c d) < S n ->
+    forall a, In a (c_attrs (ct c)) -> a_compare a = true ->
+      match rebuild ct (VInst c d) with
+      | VInst c' d' => c' = c /\
+          field_eqb (spec_eqb ct n) (getattr ct c d' (a_name a)) (getattr ct c d (a_name a)) = true
+      | _ => False
+      end.
+  Proof.
+    intros W R SZ a I C. unfold rebuild. rewrite construct_collect. split; auto.
+    destruct (CT c) as [_ [ND _]].
+    destruct (R a I C) as [R1 R2].
+    assert (Wu := getattr_wf ct CT c d (a_name a) W).
+    assert (Su := getattr_size ct CT c d (a_name a)).
+    unfold getattr at 1. rewrite lookup_collect; auto.
+    unfold G2. rewrite own_kwargs_collect, lookup_collect; auto. unfold G1.
+    destruct (a_init a) eqn:IN.
+    - remember (getattr ct c d (a_name a)) as u.
+      destruct (is_missing u) eqn:M.
+      + destruct u; try discriminate. rewrite (R2 eq_refl eq_refl).
+        (* both sides read the class *)
+        assert (L : lookup (a_name a) d = None).
+        { destruct (lookup (a_name a) d) eqn:L; auto. exfalso.
+          unfold getattr in Hequ. rewrite L in Hequ. subst v.
+          eapply stored_not_missing; eauto. }
+        unfold getattr in Hequ. rewrite L in Hequ. rewrite <- Hequ.
+        apply field_refl; [left; auto | simpl in *; lia].
+      + assert (M' : is_missing (as_arg u) = false).
+        { destruct u; try discriminate; auto. destruct self; auto. }
+        rewrite M'.
+        assert (D : (if a_dnc a then as_arg u else deepcopy ct (as_arg u)) = as_arg u).
+        { destruct (a_dnc a); auto. apply (dc_id (S (size (as_arg u)))). lia. }
+        rewrite D. apply field_as_arg; auto. lia.
+    - unfold getattr. rewrite (R1 eq_refl).
+      apply field_refl.
+      + apply cls_attr_wf; auto.
+      + rewrite cls_attr_size; auto. simpl in SZ. lia.
+  Qed.
+
+  Lemma collect_wf G l :
+    (forall a v, In a l -> G a = Some v -> is_meth v = true \/ wf v) ->
+    Forall (fun xv => is_meth (snd xv) = true \/ wf (snd xv)) (collect G l).
+  Proof.
+    induction l as [|b t IH]; simpl; intro H; [constructor|].
+    apply Forall_app. split.
+    - destruct (G b) eqn:E; constructor; [|constructor]. simpl. eapply H; eauto.
+    - apply IH. intros; eapply H; eauto.
+  Qed.
+
+  Lemma rebuild_wf c d : wf (VInst c d) -> wf (rebuild ct (VInst c d)).
+  Proof.
+    intro W. unfold rebuild. rewrite construct_collect. constructor. apply collect_wf.
+    intros a v I E. unfold G2 in E. destruct (a_init a); try discriminate.
+    destruct (CT c) as [_ [ND [_ DF]]].
+    rewrite own_kwargs_collect, lookup_collect in E; auto. unfold G1 in E.
+    destruct (a_init a) eqn:IN.
+    - assert (Wu := getattr_wf ct CT c d (a_name a) W).
+      remember (getattr ct c d (a_name a)) as u.
+      destruct (is_missing u) eqn:M.
+      + destruct u; try discriminate. right. eapply DF; eauto.
+      + assert (M' : is_missing (as_arg u) = false).
+        { destruct u; try discriminate; auto. destruct self; auto. }
+        rewrite M' in E.
+        assert (D : (if a_dnc a then as_arg u else deepcopy ct (as_arg u)) = as_arg u).
+        { destruct (a_dnc a); auto. apply (dc_id (S (size (as_arg u)))). lia. }
+        rewrite D in E. inversion E; subst.
+        apply as_arg_wf in Wu. destruct Wu as [X|[X|X]]; auto.
+        rewrite X in M'. discriminate.
+    - right. eapply DF; eauto.
+  Qed.
+
+  Theorem rebuild_eq n c d :
+    wf (VInst c d) -> rebuildable c d ->
+    size (rebuild ct (VInst c d)) + size (VInst c d) < S n ->
+    size (VInst c d) + size (VInst c d) < S n ->
+    py_eq ct (S n) (rebuild ct (VInst c d)) (VInst c d) = Ok true.
+  Proof.
+    intros W R S1 S2. unfold py_eq.
+    assert (W' := rebuild_wf c d W).
+    rewrite val_eq_spec; auto; try (right; right; auto). f_equal.
+    assert (F := rebuild_fields n c d W R S2).
+    destruct (rebuild ct (VInst c d)) as [| | | | | | | | | |c' d'] eqn:RB; try discriminate RB.
+    assert (c' = c).
+    { simpl in RB. unfold construct in RB. inversion RB; auto. }
+    subst c'. simpl. rewrite Nat.eqb_refl. simpl.
+    apply forallb_forall. intros a I. destruct (a_compare a) eqn:C; simpl; auto.
+    destruct (F a I C) as [_ F']. exact F'.
+  Qed.
+End Theorems.
